@@ -34,7 +34,7 @@
    sync.Mutex has no owner, the model only tests them for [None].
    [misuse] is set when the caller breaks the contract of the API: Release(c) while a
    Fulfill(_, c) call is still running (the argument must stay valid during the call), or a
-   promise fulfilled with a client of itself. *)
+   promise fulfilled with a client that (transitively) resolves to that promise itself. *)
 From Coq Require Import ZArith List Bool Arith Lia.
 Import ListNotations.
 Open Scope Z_scope.
@@ -324,6 +324,55 @@ Definition cwalk_end (t : nat) (k : kont) (c cur : nat) (hk : hook) (g : config)
   | KSame2 h1 => finish t (RBool (oeqb h1 (Some cur))) (unlock_c g)
   end.
 
+(* ---------------------------------------------------------------- Fulfill: marking the promise *)
+(* Does the resolution chain starting at x lead to p?  (Running out of fuel counts as "yes":
+   the check is only used to flag caller errors, and it may err on the side of flagging.) *)
+Fixpoint chain_hits (hs : list hook) (fuel : nat) (x p : nat) : bool :=
+  if Nat.eqb x p then true else
+  match fuel with
+  | O => true
+  | S f =>
+      match nth_error hs x with
+      | Some hk => if forwarded x hk then
+                     match h_rh hk with Some y => chain_hits hs f y p | None => false end
+                   else false
+      | None => false
+      end
+  end.
+
+(* Fulfill(p, c) with c's hook rh already (transitively) resolved to p: the promise would be
+   resolved into a cycle.  The Go code would then spin or block forever in resolveHook; it is a
+   caller error ("all future calls ... will be sent to c" has no meaning), flagged as misuse. *)
+Definition resolves_to_cycle (g : config) (rh : option nat) (p : nat) : bool :=
+  match rh with
+  | Some r => chain_hits (hooks g) (length (hooks g)) r p
+  | None => false
+  end.
+
+(* cp.h.mu has been acquired by t, the promise is unresolved; hk is its state *)
+Definition fmark_body (fixed : bool) (t p : nat) (rh c : option nat) (hk : hook) (g : config) : config :=
+  let n := h_refs hk in
+  let hk1 := hk_refs 0 (hk_resolve rh hk) in
+  if n =? 0 then finish t ROk (uh p (fun _ => hk1) g)
+  else
+    let closed := if h_calls hk1 =? 0 then close_done hk1 else Some hk1 in
+    match closed with
+    | None => finish t RPanic (uh p (fun _ => hk_mu (Some t) hk1) g)
+    | Some hk2 =>
+        match rh with
+        | None => set_pc t (WaitDone p) (retarget p None (uh p (fun _ => hk2) g))
+        | Some r =>
+            if Nat.eqb r p then
+              (* the promise is resolved to itself: the references stay where they
+                 are and the hook is shut down nevertheless (caller error) *)
+              set_pc t (WaitDone p) (set_misuse true (uh p (fun _ => hk_refs n hk2) g))
+            else if fixed then
+              set_pc t (FWalk p n c r) (uh p (fun _ => hk_mu (Some t) hk2) g)
+            else
+              set_pc t (FWalk p n c r) (uh p (fun _ => hk2) g)
+        end
+    end.
+
 (* ---------------------------------------------------------------- one step *)
 Definition step (fixed : bool) (g : config) (t : nat) : option config :=
   match nth_error (threads g) t with
@@ -429,28 +478,8 @@ Definition step (fixed : bool) (g : config) (t : nat) : option config :=
             | None =>
                 if h_resolved hk then Some (finish t RPanic g)
                 else
-                  let n := h_refs hk in
-                  let hk1 := hk_refs 0 (hk_resolve rh hk) in
-                  if n =? 0 then Some (finish t ROk (uh p (fun _ => hk1) g))
-                  else
-                    let closed := if h_calls hk1 =? 0 then close_done hk1 else Some hk1 in
-                    match closed with
-                    | None => Some (finish t RPanic (uh p (fun _ => hk_mu (Some t) hk1) g))
-                    | Some hk2 =>
-                        match rh with
-                        | None =>
-                            Some (set_pc t (WaitDone p) (retarget p None (uh p (fun _ => hk2) g)))
-                        | Some r =>
-                            if Nat.eqb r p then
-                              (* the promise is resolved to itself: the references stay where they
-                                 are and the hook is shut down nevertheless (caller error) *)
-                              Some (set_pc t (WaitDone p) (set_misuse true (uh p (fun _ => hk_refs n hk2) g)))
-                            else if fixed then
-                              Some (set_pc t (FWalk p n c r) (uh p (fun _ => hk_mu (Some t) hk2) g))
-                            else
-                              Some (set_pc t (FWalk p n c r) (uh p (fun _ => hk2) g))
-                        end
-                    end
+                  Some (fmark_body fixed t p rh c hk
+                          (if resolves_to_cycle g rh p then set_misuse true g else g))
             end
         end
     | FWalk p n c cur =>
